@@ -802,7 +802,11 @@ func genC19(seed uint64, thorough bool) *c19Case {
 }
 
 func shrinkC19(c *c19Case, how string, scratch string) *c19Case {
+	deadline := time.Now().Add(25 * time.Second) // minimisation is bounded
 	fails := func(x *c19Case) bool {
+		if time.Now().After(deadline) {
+			return false
+		}
 		v, h, _ := runC19(x, scratch, map[string]int64{})
 		return h == "" && v != nil && v.Features["how"] == how
 	}
